@@ -65,7 +65,10 @@ func loadEvents(filename string) (map[string]*eventsListType, error) {
 	minCreateTime := uint64(time.Now().Add(-durationMonth).Unix())
 	for username, eventsSlice := range events {
 		eventsList := &eventsListType{}
-		for _, savedEvent := range eventsSlice {
+		// Events are saved newest first (see getEventsList): rebuild the list
+		// from the oldest so that the order survives a restart.
+		for index := len(eventsSlice) - 1; index >= 0; index-- {
+			savedEvent := eventsSlice[index]
 			if savedEvent.CreateTime < minCreateTime {
 				continue
 			}
